@@ -105,6 +105,9 @@ type recordSpec struct {
 	zeroT bool
 	pc    bool
 	attrs []slog.Attr
+	// calls, when not nil, are the sizes of the AddAttrs calls that add attrs
+	// (they decide the capacity of the slice behind the first five).
+	calls []int
 }
 
 func (rs recordSpec) build(extra []slog.Attr) slog.Record {
@@ -117,7 +120,19 @@ func (rs recordSpec) build(extra []slog.Attr) slog.Record {
 		pc = somePC
 	}
 	r := slog.NewRecord(t, rs.level, rs.msg, pc)
-	r.AddAttrs(rs.attrs...)
+	if rs.calls == nil {
+		r.AddAttrs(rs.attrs...)
+	} else {
+		rest := rs.attrs
+		for _, c := range rs.calls {
+			c = min(c, len(rest))
+			r.AddAttrs(rest[:c]...)
+			rest = rest[c:]
+		}
+		if len(rest) > 0 {
+			r.AddAttrs(rest...)
+		}
+	}
 	if len(extra) > 0 {
 		r.AddAttrs(extra...)
 	}
@@ -165,6 +180,17 @@ func parseLine(line []byte) (sev, msg string, problem string) {
 	if !utf8.Valid(body) {
 		return "", "", "line is not valid UTF-8"
 	}
+	// The usual shape first: it is a strict subset of what the general parser
+	// below accepts, with the same result.
+	for _, sv := range [...]string{"NORMAL", "ERROR"} {
+		pre := `{"severity":"` + sv + `","message":`
+		if len(body) > len(pre)+2 && string(body[:len(pre)]) == pre && body[len(pre)] == '"' && body[len(body)-1] == '}' {
+			var m string
+			if json.Unmarshal(body[len(pre):len(body)-1], &m) == nil {
+				return sv, m, ""
+			}
+		}
+	}
 	dec := json.NewDecoder(bytes.NewReader(body))
 	tok, err := dec.Token()
 	if err != nil {
@@ -183,12 +209,12 @@ func parseLine(line []byte) (sev, msg string, problem string) {
 		if !ok {
 			return "", "", "not JSON: member name is not a string"
 		}
-		var val any
-		if err := dec.Decode(&val); err != nil {
+		vt, err := dec.Token()
+		if err != nil {
 			return "", "", "not JSON: " + err.Error()
 		}
 		seen[key]++
-		s, isStr := val.(string)
+		s, isStr := vt.(string)
 		switch key {
 		case "severity":
 			if !isStr {
